@@ -32,7 +32,10 @@ fn call(rt: &tokio::runtime::Runtime, w: &World, req: &RawRequest) -> CallOutcom
 }
 
 pub fn setup(rt: &tokio::runtime::Runtime, tag: &str) -> World {
-    let scratch = Scratch::new(tag);
+    setup_in(rt, Scratch::new(tag))
+}
+
+pub fn setup_in(rt: &tokio::runtime::Runtime, scratch: Scratch) -> World {
     std::fs::create_dir_all(scratch.root()).unwrap();
     std::fs::create_dir_all(scratch.base.join("outside/dir")).unwrap();
     std::fs::write(scratch.base.join("outside/sentinel-1.txt"), marker("outside/sentinel-1")).unwrap();
@@ -80,6 +83,10 @@ pub struct Case {
     /// copy source (bucket, key) / upload id, when the operation has one
     pub src: Option<(String, String)>,
     pub upload_id: Option<String>,
+}
+
+pub fn build_pub(case: &Case) -> RawRequest {
+    build(case)
 }
 
 fn build(case: &Case) -> RawRequest {
@@ -234,10 +241,18 @@ pub fn judge(rt: &tokio::runtime::Runtime, r: &mut Report, w: &World, case: &Cas
     r.count("snapshot_entries_compared", after.len() as u64);
 }
 
+/// placeholders of key / upload-id templates, filled from the world at hand: {ROOT} {BASE} {OUID} (the live upload of
+/// another bucket) {OWN} (the live upload of the addressed bucket)
+pub fn fill(w: &World, t: &str) -> String {
+    t.replace("{ROOT}", &w.scratch.root().to_string_lossy()).replace("{BASE}", &w.scratch.base.to_string_lossy()).replace("{OUID}", &w.upload_ids[1].2).replace("{OWN}", &w.upload_ids[0].2)
+}
+
 fn hostile_keys(w: &World, g: &mut Rng) -> Vec<(String, String)> {
-    let root = w.scratch.root().to_string_lossy().into_owned();
-    let base = w.scratch.base.to_string_lossy().into_owned();
-    let (ob, ok, ouid) = w.upload_ids[1].clone();
+    hostile_key_templates(g).into_iter().map(|(c, k)| (c, fill(w, &k))).collect()
+}
+
+pub fn hostile_key_templates(g: &mut Rng) -> Vec<(String, String)> {
+    let (root, base, ouid) = ("{ROOT}", "{BASE}", "{OUID}");
     let mut v: Vec<(String, String)> = vec![
         ("dotdot-other-bucket".into(), "../bucket-b/secret".into()),
         ("dotdot-other-bucket".into(), "dir/../../bucket-b/secret".into()),
@@ -281,7 +296,6 @@ fn hostile_keys(w: &World, g: &mut Rng) -> Vec<(String, String)> {
         ("plain".into(), "dir/obj2".into()),
         ("plain".into(), "does-not-exist".into()),
     ];
-    let _ = (ob, ok);
     // random compositions
     const P: &[&str] = &["..", ".", "/", "//", "bucket-b", "bucket-c", "secret", "obj1", "dir", "outside", "%2e%2e", "%2f", "a"];
     for _ in 0..12 {
@@ -303,9 +317,10 @@ pub fn run(ctx: &RunCtx) -> i32 {
     let meta = CheckMeta {
         property: "C17",
         level: "exploration",
-        rule: "s3s-fs behind S3Service::call in a scratch directory with three populated buckets (objects with content markers, user metadata, checksums side files), one live multipart upload per bucket and a sentinel tree next to the root; for every object-level operation (Get, ranged Get, Head, Put, Delete, DeleteObjects, CopyObject with hostile destination and with hostile source, ListObjectsV2 prefix, CreateMultipartUpload) x ~55 keys from a traversal-rich alphabet ('..' towards other buckets / outside / bookkeeping files, absolute paths inside and outside the root, percent-encoded and double-encoded dots, '.', '//', leading and trailing '/', bookkeeping look-alikes, long components, control characters, random compositions) and for every multipart operation x hostile upload ids / keys: recursive snapshots (path, type, size, SHA-256, mtime) of the WHOLE scratch directory before and after, every changed path classified (addressed bucket / own bookkeeping / temp file / other bucket / foreign bookkeeping / outside root), and the response searched for content markers of non-addressed buckets and of the sentinel tree. Operations run strictly serially; the world is rebuilt after each violation-prone write. A cell is (operation, key class, outcome).".into(),
+        rule: "s3s-fs behind S3Service::call in a scratch directory with three populated buckets (objects with content markers, user metadata, checksums side files), one live multipart upload per bucket and a sentinel tree next to the root; for every object-level operation (Get, ranged Get, Head, Put, Delete, DeleteObjects, CopyObject with hostile destination and with hostile source, ListObjectsV2 prefix, CreateMultipartUpload) x ~55 keys from a traversal-rich alphabet ('..' towards other buckets / outside / bookkeeping files, absolute paths inside and outside the root, percent-encoded and double-encoded dots, '.', '//', leading and trailing '/', bookkeeping look-alikes, long components, control characters, random compositions) and for every multipart operation x hostile upload ids / keys: recursive snapshots (path, type, size, SHA-256, mtime) of the WHOLE scratch directory before and after, every changed path classified (addressed bucket / own bookkeeping / temp file / other bucket / foreign bookkeeping / outside root), and the response searched for content markers of non-addressed buckets and of the sentinel tree. Operations run strictly serially; the world is rebuilt after each violation-prone write. Second leg: the same operations x keys / upload ids in child processes under strace -f -y -e trace=%file, every operation bracketed by marker calls and run on a runtime that is dropped before the end marker; every path argument of every file system call between the markers (open, stat, unlink, rename, mkdir, ...) is made absolute, normalised and classified by the same zones, so that a file that is merely opened, read or stat-ed outside the root, in another bucket or among foreign bookkeeping files is seen although nothing changed and nothing of it was served. A cell is (operation, key class, outcome), for the second leg prefixed with syscall/.".into(),
         assumptions: vec![
-            "reads are observable only through the response (markers); the syscall-level monitor planned in DESIGN.md is not part of this revision".into(),
+            "syscall leg: a path is classified after lexical normalisation (the scratch tree holds no symbolic links); calls before the first marker (loader, runtime start, store set-up) are not judged; getcwd is not a file access".into(),
+            "syscall leg: stat-like calls and read-only opens of bookkeeping files of OTHER objects of the addressed bucket are tolerated (listings), everything else outside {addressed bucket, copy source bucket, own bookkeeping, temp file, root directory itself} is a violation; the unchanged tree touches only those zones".into(),
             "bucket names are validated by the adapter before the backend sees them; hostile bucket names are covered by C12".into(),
         ],
         min_held: 300,
@@ -371,11 +386,35 @@ pub fn run(ctx: &RunCtx) -> i32 {
             }
         }
     });
+    // second leg: the file system calls of the same operations (child processes under strace)
+    let mut total = total;
+    match crate::monitor::c17sys::strace_file_works() {
+        Err(e) => total.inconclusive(format!("syscall leg not run: {e}")),
+        Ok(()) => {
+            let (n_shards, keep, seeds) = if ctx.tier == Tier::Quick { (12u64, 3u64, 1u64) } else { (16, 1, ctx.tier.sz(1, 6)) };
+            let jobs = seeds * (n_shards + 2);
+            let sys = par_run(ctx.workers, jobs, |j, r| {
+                let s = j / (n_shards + 2);
+                let k = j % (n_shards + 2);
+                let seed = derive_seed(ctx.seed, "C17/sys", s);
+                if k < n_shards {
+                    crate::monitor::c17sys::run_part(r, seed, 0, k, n_shards, keep);
+                } else {
+                    crate::monitor::c17sys::run_part(r, seed, 1, k - n_shards, 2, keep);
+                }
+            });
+            total.merge(sys);
+        }
+    }
     finish(ctx, &meta, &total)
 }
 
 pub fn replay(v: &Value) -> i32 {
     let w = &v["witness"];
+    if w["kind"] == "syscall" {
+        println!("note: {}", crate::monitor::c17sys::replay_note(v));
+        return 2;
+    }
     let mut r = Report::new();
     let rt = new_runtime_real();
     let world = setup(&rt, "c17-replay");
